@@ -340,12 +340,20 @@ class _TextualFinder:
 
     def _search_in_f_string(self, f_string: str) -> Iterator[int]:
         tree = ast.parse(f_string)
+        lines = codeanalyze.SourceLinesAdapter(f_string)
+
+        def offset(lineno, col_offset):
+            # an f-string can span lines, and `col_offset` counts bytes
+            return lines.get_line_start(lineno) + codeanalyze.column_to_offset(
+                lines.get_line(lineno), col_offset
+            )
+
         for node in ast.walk(tree):
             if isinstance(node, ast.Name) and node.id == self.name:
-                yield node.col_offset
+                yield offset(node.lineno, node.col_offset)
             elif isinstance(node, ast.Attribute) and node.attr == self.name:
                 assert node.end_col_offset is not None
-                yield node.end_col_offset - len(self.name)
+                yield offset(node.end_lineno, node.end_col_offset) - len(self.name)
 
     def _normal_search(self, source: str) -> Iterator[int]:
         current = 0
